@@ -14,8 +14,8 @@ import NitroVerif.Gen.Guards
   * `compare` of item.go with the `MinItem` / `MaxItem` sentinels (`compare`), over `CompareInt`.
   * `findPath` (the `retry` on a failed `helpDelete`, the `for deleted` loop with its two re-reads in
     one segment, `cmpVal` kept across levels, `buf.preds/succs`), `helpDelete` and its accounting,
-    `NewLevel`, `Insert3/Insert4` (retry after a failed publish, `fixThisLevel`, the re-check of the mark
-    after the upper-level link, `finished`), `softDelete`, `deleteNode`, `Delete`, `Lookup`,
+    `NewLevel`, `Insert3/Insert4` (retry after a failed publish, `fixThisLevel`, the check of the recorded
+    successor's mark before the upper-level link, the re-check of the node's own mark after it, `finished`), `softDelete`, `deleteNode`, `Delete`, `Lookup`,
     `Iterator.SeekFirst/Seek/Next`.
   * The decisions `Gen.findAdvance`, `Gen.findFound`, `Gen.helpAccounts`, `Gen.softDeleteWins`,
     `Gen.newLevelClamp`, `Gen.newLevelBump`, `Gen.maxLevel` are CALLED, not restated.
@@ -36,6 +36,8 @@ import NitroVerif.Gen.Guards
   * `Iterator.deleted` is never set in package skiplist; `smrInterval = ^uint(0)`, so `Refresh` never
     runs from `Next`; `it.count` is not modelled.  The barrier (Acquire/Release) has no yield point here
     and no effect on the list; `usedBytes` is not printed by the protocol and not modelled.
+  * Ghost state: `FP.startLen` (heap length when the findPath call started) is written once and never read by
+    the model; it only serves to state "published before the search started" in the theorems.
   * `Iterator.Next`'s re-search passes `it.curr.Item()`; the driver refuses `it_next` unless the cursor
     is on a real item (Valid()), so `itemOfKey` is only applied to `Key.fin`.
 -/
@@ -109,6 +111,10 @@ structure Shared where
   heap : Heap
   level : Nat := 0
   stats : Stats := {}
+  /-- CONFIGURATION, constant along a run: `true` = the code of /repo now; `false` = the code before the fix
+      "Insert4 does not link an upper level in front of a deleted successor" (kept so that the pre-fix witness
+      can be stated and kernel-checked, see Props/C14c.lean) -/
+  fixedSucc : Bool := true
 deriving Repr
 
 def headId : Nat := 0
@@ -128,6 +134,9 @@ inductive Cont where
   | insRetry (lvl : Nat)
   /-- Insert4: re-search after a failed link of published node `x` at upper level `i` -/
   | insRelink (x lvl i : Nat)
+  /-- Insert4: re-search because the recorded successor `buf.succs[i]` of published node `x` is deleted
+      (`continue fixThisLevel`: back to the INS_UP_READ of the same level) -/
+  | insSuccDeleted (x lvl i : Nat)
   /-- Insert4: the unlinking search after the post-link re-check saw the mark; then `finished` -/
   | insUnlink (x lvl : Nat)
   /-- Delete: the lookup -/
@@ -148,6 +157,8 @@ structure FP where
   prev : Nat
   curr : Nat
   cont : Cont
+  /-- GHOST (never read by the model): the number of published nodes when this findPath call started -/
+  startLen : Nat := 0
 deriving Repr
 
 /-- program counter: one constructor per yield point, with the locals of the enclosing Go functions -/
@@ -222,7 +233,8 @@ abbrev Res := Shared Ã— Thread Ã— String
 
 /-- entry of findPath: `cmpVal = 1; retry: prev := s.head; level := LoadInt32(&s.level)`, parks at FIND_LEVEL -/
 def startFind (sh : Shared) (th : Thread) (item : Nat) (cont : Cont) : Res :=
-  (sh, { th with pc := .findLevel { item, cmpVal := 1, i := sh.level, prev := headId, curr := headId, cont } },
+  (sh, { th with pc := .findLevel { item, cmpVal := 1, i := sh.level, prev := headId, curr := headId, cont,
+                                     startLen := sh.heap.length } },
    "at FIND_LEVEL")
 
 /-- Insert4 `finished:` -/
@@ -249,6 +261,7 @@ def finishFind (sh : Shared) (th : Thread) (item : Nat) (found : Bool) : Cont â†
     if found then (sh, { th with pc := .idle }, retBool false)
     else (sh, { th with pc := .insPublish item lvl }, "at INS_PUBLISH")
   | .insRelink x lvl i => (sh, { th with pc := .insUpRead item x lvl i }, "at INS_UP_READ")
+  | .insSuccDeleted x lvl i => (sh, { th with pc := .insUpRead item x lvl i }, "at INS_UP_READ")
   | .insUnlink _ lvl => insFinished sh th lvl
   | .delSearch =>
     if found then
@@ -321,6 +334,12 @@ def stepInsPublish (sh : Shared) (th : Thread) (item lvl : Nat) : Res :=
     let sh1 := { sh with stats := { sh.stats with insertConflicts := sh.stats.insertConflicts + 1 } }
     startFind sh1 th item (.insRetry lvl)
 
+/-- Insert4 between the node's own `dcasNext` and the INS_UP_LINK yield: the check of the recorded successor
+    (`if _, nextDeleted := next.getNext(i); nextDeleted { s.findPath(..); continue fixThisLevel }`) -/
+def insCheckSucc (sh : Shared) (th : Thread) (item x lvl i next : Nat) : Res :=
+  if sh.fixedSucc && (getNext sh.heap next i).2 then startFind sh th item (.insSuccDeleted x lvl i)
+  else (sh, { th with pc := .insUpLink item x lvl i next }, "at INS_UP_LINK")
+
 def stepInsUpRead (sh : Shared) (th : Thread) (item x lvl i : Nat) : Res :=
   let w := getNext sh.heap x i
   let next := th.succ i
@@ -328,9 +347,9 @@ def stepInsUpRead (sh : Shared) (th : Thread) (item x lvl i : Nat) : Res :=
   else if w.1 â‰  next then
     let r := dcas sh.heap x i w.1 next false
     let sh1 := { sh with heap := r.1 }
-    if r.2 then (sh1, { th with pc := .insUpLink item x lvl i next }, "at INS_UP_LINK")
+    if r.2 then insCheckSucc sh1 th item x lvl i next
     else insFinished sh1 th lvl
-  else (sh, { th with pc := .insUpLink item x lvl i next }, "at INS_UP_LINK")
+  else insCheckSucc sh th item x lvl i next
 
 def stepInsUpLink (sh : Shared) (th : Thread) (item x lvl i next : Nat) : Res :=
   let r := dcas sh.heap (th.pred i) i next x false
